@@ -1032,6 +1032,13 @@ func (g *schemaGenerator) generateEnumType(t *schemas.Type, scope nameScope) (co
 			return nil, fmt.Errorf("invalid type %q: %w", t.Type[0], err)
 		}
 
+		for _, v := range t.Enum {
+			switch v.(type) {
+			case map[string]interface{}, []interface{}:
+				return nil, fmt.Errorf("%w %v", errEnumNonPrimitiveVal, v)
+			}
+		}
+
 		// Enforce integer type for enum values.
 		if t.Type[0] == "integer" {
 			for i, v := range t.Enum {
